@@ -137,6 +137,8 @@ def stopcmds(job, rng, home):
     outcome = gen.make_outcome(w, random.Random(oseed), "complete")
     it = rng.randint(1, max(1, n_iters // 2))
     r = rng.random()
+    if job.get("stopkind") == "point":
+        r = r / 2          # (only stop-point requests)
     plan = {}
     kind = "point"
     if r < 0.5:
@@ -253,6 +255,12 @@ def cmds(job, rng, home):
                 if not all(w.custom.get(i.split("/")[1]) for i in ids):
                     outs = None
             cl.append((it, "set", {"tasks": ids, "flow": rng.choice([[], [], ["new"]]), "outputs": outs}))
+        elif k == "flipflop":
+            # two commands in one pass over the command queue that take a queued task's status away and back:
+            # cylc set --out=failed (waiting -> failed), cylc trigger (failed -> waiting, back in its full queue)
+            it = rng.randint(2, max(2, n_iters))
+            cl.append((it, "set", {"tasks": ["@queued"], "flow": [], "outputs": ["failed"]}))
+            cl.append((it, "force_trigger_tasks", {"tasks": ["@same"], "flow": []}))
         elif k == "group_trigger":
             cl.append((rng.randint(max(1, n_iters // 2), n_iters + 2), "force_trigger_tasks",
                        {"tasks": family_ids(), "flow": rng.choice([[], [], [], ["new"]])}))
